@@ -47,15 +47,15 @@ pub fn check_sound(
     tree: &RTree,
     b: &Binding,
     path: &str,
-) -> Result<(), String> {
+) -> Result<(), (&'static str, String)> {
     let st = &structs[tree.idx];
     for (k, _) in &node.attrs {
         let want = b.attr_bound(k);
         if !st.fields.iter().any(|f| f.bound() == want && attr_like(f)) {
-            return Err(format!(
+            return Err(("attribute-unbound", format!(
                 "{}: attribute {} has no String field bound to `{}` in struct {}",
                 path, k, want, st.name
-            ));
+            )));
         }
     }
     if node.has_chardata()
@@ -64,10 +64,10 @@ pub fn check_sound(
             .iter()
             .any(|f| f.bound() == b.text_identifier && attr_like(f))
     {
-        return Err(format!(
+        return Err(("text-unbound", format!(
             "{}: character data but struct {} has no text field",
             path, st.name
-        ));
+        )));
     }
     let mut seen: Vec<&str> = Vec::new();
     for c in node.children() {
@@ -78,20 +78,20 @@ pub fn check_sound(
         let count = node.children().filter(|d| d.name == c.name).count();
         let want = b.child_bound(&c.name);
         // candidate fields bound to the child's name; one of them must describe all occurrences
-        let mut last_err = format!(
+        let mut last_err = ("child-unbound", format!(
             "{}: child {} has no field bound to `{}` in struct {}",
             path, c.name, want, st.name
-        );
+        ));
         let mut ok = false;
         for (fi, f) in st.fields.iter().enumerate() {
             if f.bound() != want {
                 continue;
             }
             if count > 1 && !f.vec {
-                last_err = format!(
+                last_err = ("child-not-vec", format!(
                     "{}: child {} occurs {} times but field {}.{} is not a Vec",
                     path, c.name, count, st.name, f.ident
-                );
+                ));
                 continue;
             }
             let mut sub_ok = true;
@@ -99,10 +99,10 @@ pub fn check_sound(
                 let sub_path = format!("{}/{}", path, c.name);
                 if f.base == "String" {
                     if !occ.attrs.is_empty() || occ.children().next().is_some() {
-                        last_err = format!(
+                        last_err = ("string-typed-has-structure", format!(
                             "{}: element is typed String by {}.{} but has attributes or children",
                             sub_path, st.name, f.ident
-                        );
+                        ));
                         sub_ok = false;
                         break;
                     }
@@ -116,7 +116,7 @@ pub fn check_sound(
                             }
                         }
                         None => {
-                            last_err = format!("{}: unresolved struct type {}", sub_path, f.base);
+                            last_err = ("unresolved", format!("{}: unresolved struct type {}", sub_path, f.base));
                             sub_ok = false;
                             break;
                         }
@@ -140,13 +140,13 @@ pub fn check_sound(
         let as_attr = attr_like(f) && node.attrs.iter().any(|(k, _)| b.attr_bound(k) == f.bound());
         let as_child = node.children().any(|c| b.child_bound(&c.name) == f.bound());
         if !as_attr && !as_child {
-            return Err(format!(
+            return Err(("required-field-absent", format!(
                 "{}: required field {}.{} (bound to `{}`) is absent from this occurrence",
                 path,
                 st.name,
                 f.ident,
                 f.bound()
-            ));
+            )));
         }
     }
     Ok(())
